@@ -349,7 +349,7 @@ def run(rep: common.Report):
     rep.trust("induction over the height of the component tree (recursive calls through the property_items / _walk contracts)",
               "CaselessDict.keys()/sorted_keys() return keys that are present in the map (C17, C10); self[name] through the C17 contract",
               "sets compared as logs of add / discard operations (structural equality)",
-              "Timezone.tz_name is an opaque attribute here (its relation to the TZID property is checked by the stand-in)",
+              "Timezone.tz_name is an opaque attribute in the set-log obligations; its relation to the TZID property is a separate statement-shape obligation",
               "engine: vc/pyvc + z3 5.1.0")
     try:
         obs = obligations(eng, classes, rep.tier)
@@ -357,6 +357,16 @@ def run(rep: common.Report):
         import traceback
         traceback.print_exc()
         obs = [Obligation(f"{PID}.engine", "cal", "z3", ERROR, detail=repr(e))]
+    # the link between "tz_name" (opaque above) and the TZID property: tz_name is the text of TZID (statement shape of the real body)
+    import ast as _ast
+    mod_c = source.module("cal")
+    node_t = mod_c.lookup("Timezone.tz_name")
+    body_t = [_ast.unparse(x) for x in source.strip_docstring(node_t.body)] if node_t is not None else None
+    ok_t = body_t == ["try:\n    return str(self['TZID'])\nexcept UnicodeEncodeError:\n    return self['TZID'].encode('ascii', 'replace')"]
+    obs.append(Obligation(f"{PID}.Timezone.tz_name.is_the_text_of_TZID", "cal:Timezone.tz_name", "fin", PROVED if ok_t else UNDECIDED,
+                          detail="body is `return str(self['TZID'])` (the except branch cannot be taken: str() of a str never raises UnicodeEncodeError)"
+                          if ok_t else f"body is {body_t!r}: outside the statement shape (the stand-in decides)",
+                          lines=source.lines_of(node_t) if node_t is not None else None))
     from props import C18_bnd
     for ob in obs:
         if ob.status == REFUTED:
